@@ -7,14 +7,15 @@
    for the hash of its header - the proposal of its current view held in the primary's slot - and only while its own
    Commit slot is empty.
    For every history of one initialisation epoch (Start or Reset, then any other API calls, any callback answers) in which
-   the application reports one validator index in its key-pair callbacks and the validator list has at most 2^16 entries
-   (Sign.v, SignEpoch.v): the node asks for at most one block signature, and once it has signed, its own Commit slot keeps
-   that commit - through re-verification of stored commits, view changes and everything else - until the next epoch.
-   The remaining site of the lock (a PrepareRequest arriving after the commit) and the history-level clauses (no two
-   proposals/responses per view, no two commits per height, view monotonicity, recovery contents) are NOT proved; they
+   the application reports one validator index in its key-pair callbacks, never tells the node to watch only, and the
+   validator list has at most 2^16 entries (SignL.v .. SignLApi.v): the node asks for at most one block signature; once it
+   has signed, its own Commit slot keeps exactly that commit and NO further call changes the view (the commit lock, at all
+   of its sites including a PrepareRequest arriving after the commit) until the next epoch.
+   The history-level clauses about proposals, responses and pre-commits (no two per view / at all), "never asks for a view
+   change" as a statement about broadcasts, and the recovery contents are NOT proved; they
    are decided by the monitors on the real library over the generated histories (DESIGN.md section 0.1). *)
 From Coq Require Import ZArith List.
-From DbftV Require Import P03 P02 SignEpoch.
+From DbftV Require Import P03 P02 SignLApi.
 Open Scope Z_scope.
 
 Definition own_commit_or_precommit_sent (s : nstate) : Prop :=
@@ -62,20 +63,29 @@ Theorem block_signature_only_for_the_proposal_and_only_while_no_own_commit_is_he
 Proof. exact (signature_only_for_the_proposal_while_uncommitted cfg st ev sc st' tr s h). Qed.
 Print Assumptions block_signature_only_for_the_proposal_and_only_while_no_own_commit_is_held.
 
-(* one block signature per epoch: Epoch st g - st was reached by Start or Reset followed by any calls other than Start/Reset,
-   g is the sequence of callbacks made since; nsign counts the signature requests in it; KS mi g - every key-pair callback in
-   g reported index mi *)
+(* Histories of one epoch.  Epoch st g: st was reached from a reachable state by Start or Reset followed by any calls other than
+   Start/Reset; g is the sequence of callbacks made since that initialisation, each with the node state at its instant.
+   nsign g counts the block-signature requests in g; signed_commit g is the Commit built at the first of them.
+   KS mi g: every key-pair callback in g reported validator index mi and every watch-only callback answered "no". *)
 Theorem an_honest_node_signs_at_most_one_block_per_epoch cfg st g mi :
   Epoch cfg st g -> KS mi g -> zlen (Validators st) <= 65536 -> (nsign g <= 1)%nat.
 Proof. exact (one_signature_per_epoch cfg st g mi). Qed.
 Print Assumptions an_honest_node_signs_at_most_one_block_per_epoch.
 
-(* once signed, the commit stays in the node's own slot for the rest of the epoch, carries the node's index and key, its view
-   is never ahead of the node's, and while its view is the current one it is a signature of the node's header *)
+(* once signed, exactly that commit stays in the node's own slot; the node is still in the view of the commit and its header is
+   the block that was signed *)
 Theorem the_signed_commit_is_kept_until_the_next_epoch cfg st g mi :
   Epoch cfg st g -> KS mi g -> zlen (Validators st) <= 65536 -> nsign g <> 0%nat ->
-  exists c, slot (CommitPayloads st) mi = Some c /\ MyIndex st = mi /\ p_idx c = mi /\ p_view c <= ViewNumber st /\
-            sg_key (commit_sig c) = MyKey st /\
-            (p_view c = ViewNumber st -> exists b, header st = Some b /\ sg_hash (commit_sig c) = block_hash b).
+  exists c b, signed_commit g = Some c /\ slot (CommitPayloads st) mi = Some c /\ MyIndex st = mi /\ p_idx c = mi /\
+              p_view c = ViewNumber st /\ sg_key (commit_sig c) = MyKey st /\ header st = Some b /\ sg_hash (commit_sig c) = block_hash b.
 Proof. exact (signed_commit_is_kept cfg st g mi). Qed.
 Print Assumptions the_signed_commit_is_kept_until_the_next_epoch.
+
+(* the commit lock: after the signature, no further call of the epoch - payloads of any kind incl. recovery messages and
+   PrepareRequests, timeouts, transactions, notifications - changes the view, asks for another signature, or touches the
+   node's own Commit slot or index *)
+Theorem after_its_commit_the_node_never_leaves_the_view cfg st g ev sc st' tr mi :
+  Epoch cfg st g -> continues ev -> step cfg st ev sc = Ok (st', tr) -> KS mi (g ++ tr) -> zlen (Validators st) <= 65536 -> nsign g <> 0%nat ->
+  ViewNumber st' = ViewNumber st /\ nsign tr = 0%nat /\ slot (CommitPayloads st') mi = slot (CommitPayloads st) mi /\ MyIndex st' = MyIndex st.
+Proof. exact (commit_lock cfg st g ev sc st' tr mi). Qed.
+Print Assumptions after_its_commit_the_node_never_leaves_the_view.
